@@ -136,6 +136,10 @@ NAME_VARIANTS = [
     ("old", "cafe\u0301", None),
     ("\u212bngstr\u00f6m", "\u2126", None),
     ("old", "New", None),
+    # names whose last character is a backslash / a double quote (the end of their quoted form looks like an escape)
+    ("old", "new\\", None),
+    ("old", 'new"', None),
+    ('old"', "new\\", "old\\"),
 ]
 
 
